@@ -832,3 +832,43 @@ pub fn run_isolated(id: &str, arg: &Value, timeout_s: u64) -> Result<Isolated, S
     }
     Ok(Isolated::Done(v))
 }
+
+
+// ------------------------------------------------------------------------------------------
+// Buffer identity as a dimension: real callers keep ONE read buffer and refill it in place, so
+// successive inputs (also of different flows on the thread) have the same address and often the
+// same length with different content. Inputs handed to the library go through this per-thread
+// buffer, which makes that aliasing the rule instead of an accident of the allocator.
+
+thread_local! {
+    static ALIAS_BUF: std::cell::RefCell<Vec<u8>> = std::cell::RefCell::new(vec![0u8; 1 << 16]);
+}
+
+pub fn with_aliased<T>(input: &[u8], f: impl FnOnce(&[u8]) -> T) -> T {
+    ALIAS_BUF.with(|b| {
+        // re-entrant use (a nested call) falls back to the caller's own slice
+        let Ok(mut b) = b.try_borrow_mut() else { return f(input) };
+        if b.len() < input.len() {
+            b.resize(input.len().next_power_of_two(), 0);
+        }
+        b[..input.len()].copy_from_slice(input);
+        f(&b[..input.len()])
+    })
+}
+
+
+// ------------------------------------------------------------------------------------------
+// Machinery failures that must not pre-empt a verdict: recorded, and fatal (exit 2) only when the
+// check found no violation. (State shared between library objects makes the explored system
+// nondeterministic - the cross-check with stateright then disagrees - and the same defect is what
+// the interleaving oracles report as a violation.)
+
+static DEFERRED_MACHINERY: Mutex<Vec<String>> = Mutex::new(Vec::new());
+
+pub fn defer_machinery_failure(msg: String) {
+    DEFERRED_MACHINERY.lock().unwrap().push(msg);
+}
+
+pub fn take_machinery_failures() -> Vec<String> {
+    std::mem::take(&mut *DEFERRED_MACHINERY.lock().unwrap())
+}
